@@ -2972,7 +2972,8 @@ class TypeBlocks(ContainerOperand):
                             # NOTE: start is never None
                             return sel[i, target_slice.start] # type: ignore
 
-                        target_slice = None
+                        # the slice next to the edge shared with the next block: slices are yielded left to right, so this is the last slice going forward and the first slice going backward
+                        target_slice_edge = None
                         for target_slice, value in slices_from_targets(
                                 target_index=target_index,
                                 target_values=target_values,
@@ -2982,10 +2983,12 @@ class TypeBlocks(ContainerOperand):
                                 slice_condition=slice_condition
                                 ):
                             assigned[i, target_slice] = value
+                            if directional_forward or target_slice_edge is None:
+                                target_slice_edge = target_slice
 
-                        # update counts from the last slice; this will have already been limited if necessary, but need to reflext contiguous values going into the next block; if slices does not go to edge; will identify as needing as reset
-                        if target_slice is not None:
-                            bridging_count[i] = len(range(*target_slice.indices(length))) # type: ignore
+                        # update counts from the edge slice; this will have already been limited if necessary, but need to reflext contiguous values going into the next block; if slices does not go to edge; will identify as needing as reset
+                        if target_slice_edge is not None:
+                            bridging_count[i] = len(range(*target_slice_edge.indices(length))) # type: ignore
 
                     bridging_values = assigned[:, bridge_src_index]
                     bridging_isna = isna_array(bridging_values) # must reevaluate if assigned
